@@ -292,6 +292,11 @@ func (nfs *Nfs) NFSPROC3_WRITE(args nfstypes.WRITE3args) nfstypes.WRITE3res {
 		errRet(op, &reply.Status, nfstypes.NFS3ERR_INVAL)
 		return reply
 	}
+	if uint64(args.Count) > uint64(len(args.Data)) {
+		// the request carries less data than it announces
+		errRet(op, &reply.Status, nfstypes.NFS3ERR_INVAL)
+		return reply
+	}
 	count, writeOk := ip.Write(op.Atxn, uint64(args.Offset), uint64(args.Count),
 		args.Data)
 	if !writeOk {
